@@ -1387,7 +1387,7 @@ def b_z_coordinates(S):
 def b_validation_caches(S):
     """the per-object caches of `Validation` (node tuples from `determine_general_nodes`, V-node set, faulty-junction set): every cache starts as None, is
     filled at the first access -- the two node SETS only while `determine_validation_nodes` is on, which `run_validation` switches per pass from the chosen
-    validators --, from `self.traces` as it is at that moment, and is never reset; `self.traces` becomes the fixed frame between the passes. Instantiated from
+    validators --, from `self.traces` as it is at that moment, and is reset only between the two passes, where `self.traces` becomes the fixed frame (all five caches back to None: repaired defect F26). Instantiated from
     the checked shapes into functions over the cache record."""
     tree = ast.parse(S[TVAL])
     cls = find_func(tree, "Validation")
@@ -1447,8 +1447,8 @@ def b_validation_caches(S):
                         txt = norm(leaf)
                         if txt in ("self._vnodes", "self._faulty_junctions", "self._endpoint_nodes", "self._intersect_nodes", "self.determine_validation_nodes"):
                             writers.setdefault(txt, set()).add(st.name)
-    want = {"self._vnodes": {"__post_init__", "vnodes"}, "self._faulty_junctions": {"__post_init__", "faulty_junctions"},
-            "self._endpoint_nodes": {"__post_init__", "set_general_nodes"}, "self._intersect_nodes": {"__post_init__", "set_general_nodes"},
+    want = {"self._vnodes": {"__post_init__", "vnodes", "run_validation"}, "self._faulty_junctions": {"__post_init__", "faulty_junctions", "run_validation"},
+            "self._endpoint_nodes": {"__post_init__", "set_general_nodes", "run_validation"}, "self._intersect_nodes": {"__post_init__", "set_general_nodes", "run_validation"},
             "self.determine_validation_nodes": {"run_validation"}}
     if writers != want:
         raise Untranslatable(f"the caches / the flag are written elsewhere: {writers}")
@@ -1466,8 +1466,16 @@ def b_validation_caches(S):
     if "vnodes=self.vnodes" not in loop_txt or "faulty_junctions=self.faulty_junctions" not in loop_txt:
         raise Untranslatable("the row loop does not pass vnodes=self.vnodes / faulty_junctions=self.faulty_junctions to _validate")
     fp = [x for x in rv if isinstance(x, ast.If) and norm(x.test) == "first_pass"]
-    if len(fp) != 1 or [norm(x) for x in fp[0].body] != ["self.traces = validated_gdf", "validated_gdf = self.run_validation(first_pass=False, choose_validators=choose_validators)"]:
-        raise Untranslatable("run_validation: between the passes `self.traces = validated_gdf` then the recursive call -- changed")
+    resets = {"self._endpoint_nodes = None", "self._intersect_nodes = None", "self._spatial_index = None", "self._faulty_junctions = None", "self._vnodes = None"}
+    body_fp = [norm(x) for x in fp[0].body] if len(fp) == 1 else []
+    if (len(body_fp) != 7 or body_fp[0] != "self.traces = validated_gdf" or set(body_fp[1:6]) != resets
+            or body_fp[6] != "validated_gdf = self.run_validation(first_pass=False, choose_validators=choose_validators)"):
+        raise Untranslatable("run_validation: between the passes `self.traces = validated_gdf`, the reset of all five caches, then the recursive call -- changed: " + str(body_fp)[:300])
+    # the only writes of the caches inside run_validation are those resets
+    rvf = next(st for st in cls.body if isinstance(st, ast.FunctionDef) and st.name == "run_validation")
+    other = [norm(n) for n in ast.walk(rvf) if isinstance(n, ast.Assign) and norm(n.targets[0]) in ("self._vnodes", "self._faulty_junctions", "self._endpoint_nodes", "self._intersect_nodes", "self._spatial_index") and norm(n) not in resets]
+    if other:
+        raise Untranslatable(f"run_validation writes a cache other than by the reset between the passes: {other}")
     out = """/-- the caches of a `Validation` object: the node tuples of `determine_general_nodes`, the V-node set, the faulty-junction set -/
 structure ValCaches (GN NS : Type) where
   general : Option GN := none
@@ -1504,6 +1512,9 @@ def val_access {T GN NS : Type} (gen : T → GN) (vn fj : GN → NS) (flag : Boo
   let (v, c) := val_vnodes gen vn flag traces c
   let (j, c) := val_junctions gen fj flag traces c
   ((v, j), c)
+
+/-- between the passes (`self.traces = validated_gdf`) every cache goes back to None -/
+def val_between_passes {GN NS : Type} (_c : ValCaches GN NS) : ValCaches GN NS := {}
 
 /-- `self.determine_validation_nodes = any(validator in VALIDATION_REQUIRES_NODES for validator in validators)`, set by run_validation for each pass -/
 def val_flag (requires : List String) (validators : List String) : Bool := validators.any fun v => requires.elem v
@@ -1642,7 +1653,9 @@ def b_run_validation(S):
         (r"self\.determine_validation_nodes = ", "determine_validation_nodes = "),
         (r"    all_errors: List\[List\[str\]\] = \[\]\n(?:.*\n)*?        all_geoms\.append\(geom\)\n", "    all_errors, all_geoms = PASS\n"),
         (r"    validated_gdf = self_traces\.copy\(\)\n    validated_gdf\[self\.ERROR_COLUMN\] = all_errors\n    validated_gdf\[self\.GEOMETRY_COLUMN\] = all_geoms\n", "    validated_gdf = VALIDATED\n"),
-        (r"        self_traces = validated_gdf\n        # Run validation again\n        validated_gdf = self\.run_validation\(\n            first_pass=False, choose_validators=choose_validators\n        \)\n", "        validated_gdf = RECUR\n"),
+        # between the passes: the fixed frame becomes self.traces and the object's caches are reset (the caches are modelled by item ValidationCaches, which checks
+        # that exactly these five are reset here)
+        (r"        self_traces = validated_gdf\n(?:        #.*\n)*(?:        self\._(?:endpoint_nodes|intersect_nodes|spatial_index|faulty_junctions|vnodes) = None\n){5}        # Run validation again\n        validated_gdf = self\.run_validation\(\n            first_pass=False, choose_validators=choose_validators\n        \)\n", "        validated_gdf = RECUR\n"),
         (r"    validated_gdf\[self\.ERROR_COLUMN\] = \[\n        tuple\(value\) for value in validated_gdf\[self\.ERROR_COLUMN\]\.values\n    \]\n", ""),
         (r"        empty_gdf: gpd\.GeoDataFrame = self_traces\.copy\(\)\n        return empty_gdf\n", "        return UNTOUCHED\n"),
         (r"        empty_gdf: gpd\.GeoDataFrame = self_traces\.copy\(\)\n(?:        #.*\n)*        empty_gdf\[self\.ERROR_COLUMN\] = \[\n            \(trace_validators\.EmptyTargetAreaValidator\.ERROR,\)\n        \] \* empty_gdf\.shape\[0\]\n        return empty_gdf\n", "        return EMPTYAREA\n"),
